@@ -17,7 +17,7 @@ mkdir -p /verif/seeded/$name
 cp patch.diff /verif/seeded/$name/patch.diff; cp tests/demo_test.rs /verif/seeded/$name/demo_test.rs; cp NOTES.md /verif/seeded/$name/NOTES.md 2>/dev/null
 [ -f Cargo.lock ] || cp /repo/Cargo.lock .
 unset CARGO_TARGET_DIR
-export E57_REPO=$wt E57_EVIDENCE_DIR=/tmp/e57-matrix-ev/$(basename $wt) E57_REPLAY_DIR=/tmp/e57-matrix-ev/$(basename $wt)/replays
+export E57_TARGET_SUFFIX=-$(basename $wt) E57_REPO=$wt E57_EVIDENCE_DIR=/tmp/e57-matrix-ev/$(basename $wt) E57_REPLAY_DIR=/tmp/e57-matrix-ev/$(basename $wt)/replays
 cd /verif
 for p in "$@"; do
   out=$(./check $p 2>&1); rc=$?
